@@ -86,6 +86,9 @@ pub struct Run<'a> {
     /// 0 = never; the source's n-th read call fails once (transient): the call that hits it reports the error, the position is
     /// unknown afterwards, and the run goes on with an absolute seek
     pub fault_at: usize,
+    /// 0 = never; the source's n-th SEEK call fails once.  The reader's seek reports it; no recovery seek follows: the caller goes on
+    /// reading (and asking for the position) - where the reader says it is and what it hands out must still agree
+    pub seek_fault_at: usize,
 }
 
 fn data_event<T: PartialEq + Clone + Into<i64>>(ev: &str, reference: &[T], data: &[T], log_data: bool) -> Value {
@@ -112,6 +115,7 @@ impl Run<'_> {
         let src = ChunkedReader::new(self.file.bytes.clone(), self.chunks.clone(), self.splits.clone());
         // the fault is armed after the reader was opened: `fault_at` counts source reads from then on
         let fault_in = src.fault_in.clone();
+        let seek_fault_in = src.seek_fault_in.clone();
         // reference unit sequences
         let ref_bytes: Vec<u8> = match self.fe {
             "byte-le" => samples_to_bytes(self.pcm, self.cfg.bps, false),
@@ -160,6 +164,9 @@ impl Run<'_> {
         if self.fault_at != 0 {
             fault_in.store(self.fault_at as isize, std::sync::atomic::Ordering::Relaxed);
         }
+        if self.seek_fault_at != 0 {
+            seek_fault_in.store(self.seek_fault_at as isize, std::sync::atomic::Ordering::Relaxed);
+        }
         // units exposed by the last fill_buf and not yet consumed (API contract for consume)
         let mut avail: usize = 0;
         let mut alive = true;
@@ -173,6 +180,26 @@ impl Run<'_> {
             });
             match r {
                 Ok(true) if !INJECTED.with(|f| f.get()) => {}
+                Ok(_) if SEEK_INJECTED.with(|f| f.replace(false)) => {
+                    // the source refused a seek: no recovery - the byte readers are asked where they are, then the history goes on
+                    INJECTED.with(|f| f.set(false));
+                    avail = 0;
+                    if self.fe.starts_with("byte") {
+                        let tell = json!({"op": "seekb", "whence": "current", "off": 0});
+                        let r2 = catch(|| match &mut reader {
+                            AnyReader::ByteLe(r) => byte_op(r, "seekb", &tell, &ref_bytes, self.log_data, &mut avail, t),
+                            AnyReader::ByteBe(r) => byte_op(r, "seekb", &tell, &ref_bytes, self.log_data, &mut avail, t),
+                            _ => true,
+                        });
+                        if !matches!(r2, Ok(true)) {
+                            if let Err(c) = r2 {
+                                t.emit(panic_event("seekb", &c));
+                            }
+                            alive = false;
+                            break;
+                        }
+                    }
+                }
                 Ok(_) if INJECTED.with(|f| f.replace(false)) => {
                     // after the injected fault: an absolute seek (whatever was buffered may be lost), then the history goes on
                     avail = 0;
@@ -242,9 +269,16 @@ impl Run<'_> {
 }
 
 thread_local! { static INJECTED: std::cell::Cell<bool> = const { std::cell::Cell::new(false) }; }
+thread_local! { static SEEK_INJECTED: std::cell::Cell<bool> = const { std::cell::Cell::new(false) }; }
 
 /// a refused seek is a verdict of the reader - unless the driver's own source fault caused it
 fn seek_err(mut ev: Value) -> Value {
+    if ev["msg"].as_str().unwrap_or("").contains("injected seek fault") {
+        SEEK_INJECTED.with(|f| f.set(true));
+        INJECTED.with(|f| f.set(true));
+        ev["ret"] = json!("ioerr");
+        return ev;
+    }
     if ev["msg"].as_str().unwrap_or("").contains("injected fault") {
         INJECTED.with(|f| f.set(true));
         ev["ret"] = json!("ioerr");
